@@ -3,7 +3,7 @@
   (literal words over a safe alphabet, single quotes, simple commands, lists, `&&` `||` `|` `!`
   `&`, subshell, block), every printer option except KeepPadding.
 -/
-import ShVerif.Proofs.L4Parse
+import ShVerif.Proofs.L4Print
 namespace ShVerif.Props.C01
 open ShVerif ShVerif.L4
 
@@ -161,6 +161,40 @@ theorem roundtrip_word (o : Opts) (w : Word) (hw : w.wf = true) (b : Bytes) (hp 
     rw [normParts_eq, h2]
     simp [pend, Word.norm, normParts_eq]
 
+
+/-! ## The round trip for programs made of simple commands
+
+  `flat`: every statement of the file is a simple command (with `!`, `&`, `;` and any layout of
+  the source: line continuations, blank lines, a `;` on a later line).  For these programs both
+  halves are proved, for **every** option set (Indent, BinaryNextLine, SwitchCaseIndent,
+  SpaceRedirects, FunctionNextLine, Minify, SingleLine; KeepPadding is not in the model) and
+  **every** assignment of positions. -/
+
+/-- printer half on flat programs -/
+theorem print_in_Prints_flat (o : Opts) (f : File) (b : Bytes) (hwf : f.wf = true) (hflat : f.stmts.flat = true)
+    (hne : f.stmts ≠ .nil) (hp : printFile o f = .ok b) : Prints f b := by
+  obtain ⟨ps, lt, h1, h2, h3, h4, h5⟩ := L4.print_in_Prints_flat o f b hwf hflat hne hp
+  exact ⟨ps, false, lt, h1, h2, h3, h4, h5⟩
+
+/-- **Round trip, simple-command programs**: whatever the options and the positions, the printed
+    bytes parse again, in every variant, to a tree with the same norm. -/
+theorem roundtrip_flat (o : Opts) (l : Lang) (f : File) (b : Bytes) (hwf : f.wf = true) (hflat : f.stmts.flat = true)
+    (hne : f.stmts ≠ .nil) (hp : printFile o f = .ok b) : ∃ f', parse l b = .ok f' ∧ f'.norm = f.norm :=
+  parse_of_Prints l f b (print_in_Prints_flat o f b hwf hflat hne hp)
+
+/-- … and printing does succeed unless refused, so the statement is not vacuous. -/
+theorem roundtrip_flat_total (o : Opts) (hr : refuse o = false) (l : Lang) (f : File) (hwf : f.wf = true)
+    (hflat : f.stmts.flat = true) (hne : f.stmts ≠ .nil) :
+    ∃ b f', printFile o f = .ok b ∧ parse l b = .ok f' ∧ f'.norm = f.norm := by
+  obtain ⟨b, hb⟩ := print_total o hr f hwf
+  obtain ⟨f', h1, h2⟩ := roundtrip_flat o l f b hwf hflat hne hb
+  exact ⟨b, f', hb, h1, h2⟩
+
+/-- a flat well-formed file: `! a 'x y' &` NEWLINE NEWLINE `b c` with `c` on a later line -/
+example : ∃ f : File, f.wf = true ∧ f.stmts.flat = true ∧ f.stmts ≠ .nil :=
+  ⟨⟨.cons (.mk ⟨0, 1, 1⟩ ⟨10, 1, 11⟩ true true (.call [w1 1 "a", ⟨[.sgl ⟨4, 1, 5⟩ ⟨8, 1, 9⟩ (bytesOfString "x y")]⟩]))
+      (.cons (.mk ⟨13, 3, 1⟩ Pos.zero false false (.call [w1 3 "b", w1 5 "c"])) .nil)⟩,
+    by decide +kernel, by decide +kernel, by simp⟩
 
 /-! ## Stated, not proved
 
